@@ -24,7 +24,7 @@ RULE = ("Data-first: Hypothesis draws an LP (<= 6 variables from scalar/vector/m
         "= c0; extract_linear_coefficient / extract_constant_term per row; and the pointwise restatement at 3 "
         "points.  Non-trivial = >= 2 variables, >= 1 constraint and a non-zero constant or a vector/matrix form."
         '  Also: reversed-view reductions, `k - expr`, bare whole-vector reductions against a non-constant side, all-zero rows, bare `x >= 0`, and one extractor object reused across all problems of a worker (must equal a fresh extractor).')
-BUDGET = {"quick": {"workers": 16, "examples": 300}, "thorough": {"workers": 16, "examples": 8000}}
+BUDGET = {"quick": {"workers": 16, "examples": 600}, "thorough": {"workers": 16, "examples": 8000}}
 ASSUMPTIONS = ["only problems optyx itself classifies as linear are judged (the rejected fraction is reported)"]
 MANIFEST = {
  "technique": "property-based testing (Hypothesis): data-first LP models rendered into API syntax; extracted LPData vs the drawn data",
